@@ -5,6 +5,8 @@ a stub that the harness controls, and a virtual clock for the start timeout.
 Extra ops:
     ("svcexit", tag, how)      the running stub `tag` ends: how = exit status (int) or "segv"
     ("actsleep",)              the clock jumps past service_start_timeout
+    ("advance", ms)            the clock jumps by ms: whatever deadline (reply_timeout, service_start_timeout) lies in
+                               between has passed, the others have not
     ("sendx", cid, bytes, name)  a send that may start a program whose Exec does not exist: the
                                daemon learns of the exec failure by itself a moment later
 The stub appends "start <tag> <pid> <ppid>" to a log when it has started, then blocks on a FIFO
@@ -231,6 +233,10 @@ class ActRun(busdiff.ImplRun):
             self.now_ms += self.svc.start_timeout + 1000
             self.clock[:8] = struct.pack("<q", self.now_ms)
             inner = ("nop",)
+        elif op[0] == "advance":
+            self.now_ms += op[1]
+            self.clock[:8] = struct.pack("<q", self.now_ms)
+            inner = ("nop",)
         elif op[0] == "sendx":
             inner = ("send", op[1], op[2])
         else:
@@ -245,9 +251,9 @@ class ActRun(busdiff.ImplRun):
             newly |= newly2
         started = self._collect_spawns()
         killed = []
-        if op[0] == "actsleep":
+        if op[0] in ("actsleep", "advance"):
             t0 = time.time()
-            while time.time() - t0 < 0.3:
+            while time.time() - t0 < (0.3 if op[0] == "actsleep" else 0.12):
                 killed = sorted(self.stubs[p][1] for p in before if not self._alive(p))
                 if len(killed) == len(before):
                     break
@@ -276,6 +282,8 @@ def op_model_lines(op, svc, info):
         return ["act close %d" % op[1]]
     if op[0] == "actsleep":
         return ["act acttimeout-all"]
+    if op[0] == "advance":
+        return ["act advance %d" % op[1]]
     if op[0] == "svcexit":
         how = op[2]
         err = "0" if how == 0 else (b"org.freedesktop.DBus.Error.Spawn.ChildSignaled" if how == "segv" else b"org.freedesktop.DBus.Error.Spawn.ChildExited").hex()
@@ -311,7 +319,8 @@ def model_run(ops, policy, limits, svc, infos=None):
     limits.setdefault("maxmsg", 32 * 1024 * 1024)
     if svc.pending is not None:
         limits["pending"] = svc.pending
-    head = ["act reset " + " ".join("%s=%d" % kv for kv in limits.items() if kv[0] not in ("reply_timeout", "pending_fd_timeout", "start_timeout", "auth_timeout"))]
+    head = ["act reset " + " ".join(["%s=%d" % kv for kv in limits.items() if kv[0] not in ("reply_timeout", "pending_fd_timeout", "start_timeout", "auth_timeout")] +
+                                    ["starttimeout=%d" % svc.start_timeout] + (["replytimeout=%d" % limits["reply_timeout"]] if limits.get("reply_timeout") else []))]
     head += [l.replace("bus policy", "act policy", 1) for l in policy.to_model()] + svc.model_lines()
     groups = [op_model_lines(op, svc, infos[i] if infos is not None and i < len(infos) else None) for i, op in enumerate(ops)]
     lines = head + [l for g in groups for l in g]
@@ -395,6 +404,8 @@ def show_op(op):
         return "svcexit %s %s" % (op[1], op[2])
     if op[0] == "actsleep":
         return "actsleep"
+    if op[0] == "advance":
+        return "advance %d" % op[1]
     return busdiff.show_op(op)
 
 
@@ -406,4 +417,6 @@ def parse_op(s):
         return ("svcexit", t[1], t[2] if t[2] == "segv" else int(t[2]))
     if t[0] == "actsleep":
         return ("actsleep",)
+    if t[0] == "advance":
+        return ("advance", int(t[1]))
     return busdiff.parse_op(s)
